@@ -178,6 +178,11 @@ func c10Base() map[string]interface{} {
 	_ = json.Unmarshal([]byte(`{"get":{"operationId":"listOrders","responses":{"200":{"description":"ok","schema":{"type":"array","items":{"type":"object","properties":{"order":{"$ref":"#/definitions/Order"},"note":{"type":"string"}}}}}}},
 	  "post":{"operationId":"addOrder","parameters":[{"name":"body","in":"body","schema":{"type":"object","properties":{"dog":{"$ref":"#/definitions/Dog"}}}}],"responses":{"204":{"description":"done"}}}}`), &op)
 	paths["/orders"] = op
+	// operations without an operationId: the generator names them for its own use, the documents must not change
+	var anon map[string]interface{}
+	_ = json.Unmarshal([]byte(`{"get":{"parameters":[{"name":"id","in":"path","required":true,"type":"string"}],"responses":{"200":{"description":"ok","schema":{"$ref":"#/definitions/Pet"}}}},
+	  "delete":{"parameters":[{"name":"id","in":"path","required":true,"type":"string"}],"responses":{"204":{"description":"gone"}}}}`), &anon)
+	paths["/anonymous/{id}"] = anon
 	return doc
 }
 
